@@ -1,5 +1,5 @@
 (* Composite correspondence driver (C09, C10, C11).
-   usage: composite_model [fix=0|1] [fix11=0|1] [stale=0|1] [lc=0|1] [fuel=N] [cap=N states] [budget=seconds per trace] [cover=0|1]
+   usage: composite_model [fix=0|1] [fix11=0|1] [stale=0|1] [lc=0|1] [ms=0|1] [fuel=N] [cap=N states] [budget=seconds per trace] [cover=0|1]
    stdin: the output of harness/cmd/composite:
      CASE id family pool n name:style:exit:rk ...   SCRIPT json   E <event> ...   OUTCOME o   END
      M old new v          (check A, hasMembershipChanged observed through Reload)
@@ -12,6 +12,7 @@ let fix = ref true
 let fix11 = ref true
 let stale = ref true
 let lc = ref true
+let ms = ref true
 let fuel = ref 20000
 let cap = ref 3000
 let budget = ref 2.5
@@ -170,7 +171,7 @@ let nparks = ref 0 and nblocked = ref 0 and nevents = ref 0 and nwit = ref 0
 
 let finish (c : case) =
   incr ncases;
-  let p = { pool = c.pool; fix_c09 = !fix; fix_c11 = !fix11; fix_stale = !stale; fix_lc = !lc } in
+  let p = { pool = c.pool; fix_c09 = !fix; fix_c11 = !fix11; fix_stale = !stale; fix_lc = !lc; fix_ms = !ms } in
   let evl = List.rev c.evs in
   let evs = List.map fst evl in
   let n = List.length evs in
@@ -262,7 +263,7 @@ let pool4 = List.map (fun i -> { c_name = n_of_int i; c_stop = NonBlocking; c_ex
 
 let do_membership o nw v =
   incr nmem;
-  let p = { pool = pool4; fix_c09 = false; fix_c11 = !fix11; fix_stale = false; fix_lc = true } in
+  let p = { pool = pool4; fix_c09 = false; fix_c11 = !fix11; fix_stale = false; fix_lc = true; fix_ms = !ms } in
   let cf l = List.map (fun x -> (x, N0)) (names_of l) in
   let m = membership_changed p (cf o) (cf nw) in
   if m then incr nmem_changed;
@@ -308,6 +309,7 @@ let () =
       | ["fix11"; v] -> fix11 := (v = "1")
       | ["stale"; v] -> stale := (v = "1")
       | ["lc"; v] -> lc := (v = "1")
+      | ["ms"; v] -> ms := (v = "1")
       | ["fuel"; v] -> fuel := int_of_string v
       | ["cap"; v] -> cap := int_of_string v
       | ["budget"; v] -> budget := float_of_string v
